@@ -748,6 +748,7 @@ func (ip *Interp) step(f *frame, v ssa.Value) Value {
 		case *types.Struct:
 			t := ip.Fresh("alloc:" + x.Comment)
 			t.Attr["zeroed"] = Bool(true) // a freshly allocated struct: unset fields read as zero values
+			t.Attr["gotype"] = x.Type()   // the dynamic type of the object when it is boxed into an interface
 			return t
 		case *types.Array:
 			a := &Array{}
@@ -922,6 +923,18 @@ func (ip *Interp) step(f *frame, v ssa.Value) Value {
 			ok, known = false, true
 		} else if ip.O != nil {
 			ok, known = ip.O.TypeTest(ip, val, x.AssertedType)
+		}
+		if !known {
+			// an object allocated by the interpreted code carries its Go type
+			if tok, isTok := val.(*Tok); isTok {
+				if gt, has := tok.Attr["gotype"].(types.Type); has {
+					if it, isIface := x.AssertedType.Underlying().(*types.Interface); isIface {
+						ok, known = types.Implements(gt, it), true
+					} else {
+						ok, known = types.Identical(gt, x.AssertedType), true
+					}
+				}
+			}
 		}
 		if !known {
 			undecided("type test %s.(%s) not modelled", Show(val), x.AssertedType)
